@@ -13,9 +13,10 @@ rm -rf $S; mkdir -p $S/repo $S/evidence $S/replays
 rsync -a --exclude .git /repo/ $S/repo/
 ( cd $S/repo && patch -p1 -s < "$OLDPWD/seeded/$NAME/patch.diff" ) || { echo "patch does not apply"; rm -rf $S; exit 2; }
 OUT=seeded/$NAME/detection.txt
+[ -n "${VERIF_ONLY:-}" ] && OUT=/var/tmp/detect_only_$NAME.txt   # a partial run is not the recorded detection
 : > $OUT
 for P in $PROPS; do
-  VERIF_REPO=$S/repo VERIF_EVIDENCE_DIR=$S/evidence VERIF_REPLAY_DIR=$S/replays VERIF_JOBS=${VERIF_JOBS:-16} ./check run $P > $S/$P.log 2>&1; RC=$?
+  VERIF_REPO=$S/repo VERIF_EVIDENCE_DIR=$S/evidence VERIF_REPLAY_DIR=$S/replays VERIF_JOBS=${VERIF_JOBS:-16} ./check run $P ${VERIF_ONLY:+--only $VERIF_ONLY} > $S/$P.log 2>&1; RC=$?
   N=$(grep -c "^VIOLATION property=$P" $S/$P.log)
   TAGS=$(grep -o "tag=[^ ]*" $S/$P.log | sort | uniq -c | sort -rn | head -3 | tr '\n' ';')
   HE=$(grep -c "^HARNESS-ERROR" $S/$P.log)
